@@ -86,6 +86,14 @@ def registry(model, R):
     r = [src(n.value) for n in walk(inf.body) if isinstance(n, ast.Return)]
     sp = [s for s in inf.body if isinstance(s, ast.Assign) and 'splitext' in src(s.value)]
     ok = r == ['self.by_suffix[suffix.lower()]'] and bool(sp) and src(sp[0].targets[0]) == '(_, suffix)' and src(sp[0].value) == f'os.path.splitext({inf.params[1]})'
+    keys = [n.slice for n in walk(inf.body) if isinstance(n, ast.Subscript) and src(n.value).endswith('by_suffix')]
+    raw = [k for k in keys if isinstance(k, ast.Name) and sp and any(isinstance(t, ast.Name) and t.id == k.id for t in ast.walk(sp[0].targets[0]))
+           and not any(isinstance(a, ast.Assign) and any(isinstance(t, ast.Name) and t.id == k.id for t in a.targets) for a in inf.body if a is not sp[0])]
+    R.decided(not raw, 'REGISTRY', inf, raw[0] if raw else inf.node, 'the suffix is case-normalised before the table lookup',
+              'by_suffix[suffix.lower()]', f'by_suffix[{src(raw[0])}] with the suffix exactly as os.path.splitext returned it' if raw else '',
+              extra={'consequence': 'a finite table keyed by spelled-out suffixes cannot match every mixed-case spelling (.Csv, .cSv, ...)'})
+    if raw:
+        return
     R.check(ok, 'REGISTRY', inf, inf.node, 'inference looks the lower-cased file suffix up', '_, suffix = os.path.splitext(filename); self.by_suffix[suffix.lower()]', str(r))
     raises = [s for s in walk(inf.body) if isinstance(s, ast.Raise)]
     R.check(all('ValueError' in src(x.exc) for x in raises) and raises, 'REGISTRY', inf, inf.node, 'unknown suffix raises ValueError', 'raise ValueError(...)')
@@ -380,15 +388,27 @@ def label_fidelity(model, R):
                and n.func.attr in ('strip', 'lstrip', 'rstrip', 'lower', 'upper', 'title', 'replace', 'split', 'splitlines', 'casefold', 'translate')]
     R.decided(not touched, 'FIDELITY', lo, touched[0] if touched else lo.node, 'csv loader does not normalise label text', 'labels stored as read',
               src(touched[0]) if touched else '')
+    literal_labels(model, R)
+
+
+def literal_labels(model, R):
+    """python-literal writer: every label goes through repr() (the inverse of the reader's ast.literal_eval), the whole
+    list on one line."""
     df = model.func('formats.python_literal.dump_file')
     it = df.nested.get('iterlines')
     if it is None:
         R.unknown('FIDELITY', df, df.node, 'python-literal writer: label lines', 'nested iterlines not found')
+        return
+    lines = [n for n in walk(it.body) if isinstance(n, ast.Assign) and len(n.targets) == 1 and src(n.targets[0]) == 'line']
+    if len(lines) != 1:
+        R.unknown('FIDELITY', it, it.node, 'python-literal writer: label line', f'{len(lines)} assignments to line')
     else:
-        text = src(it.node)
-        R.same("line = ', '.join(map(repr, doc[key]))" in text and "[f'{indent * 2}{line},']" in text, 'FIDELITY', it, it.node,
-               'python-literal writer: every label through repr(), the whole list on one line (a Python literal cannot be re-wrapped at blanks)',
-               "line = ', '.join(map(repr, doc[key])); yield from itersection(key, [f'{indent * 2}{line},'])", 'label line built differently')
+        R.expr(lines[0].value, "', '.join(map(repr, doc[key]))", 'FIDELITY', it, 'python-literal writer: labels quoted by repr()',
+               consequence='a label the quoting function does not escape exactly as repr() does (backslash, quote, control character) '
+                           'is read back as a different string or makes the file unloadable')
+    R.same("[f'{indent * 2}{line},']" in src(it.node), 'FIDELITY', it, it.node,
+           'python-literal writer: the label list on one line (a Python literal cannot be re-wrapped at blanks)',
+           "yield from itersection(key, [f'{indent * 2}{line},'])", 'label line emitted differently')
 
 
 def index_exports(model, R):
